@@ -920,4 +920,261 @@ theorem visit_obj_member (c : Ctx) (a : Attr) (req props addl) (hn : keysNodup (
       | none => simp only [hp] at hk ⊢; exact hk
       | some s => simp only [hp] at hk ⊢; rw [hk]
 
+/-! ### model = spec when the received value has no explicit null member -/
+
+theorem cleanProps_true : ∀ (ps : List (String × S)), cleanProps ps = true → ∀ p ∈ ps, cleanDefaults p.2 = true
+  | [], _, p, hp => by cases hp
+  | (k, s) :: ps, h, p, hp => by
+    simp only [cleanProps, Bool.and_eq_true] at h
+    cases hp with
+    | head => exact h.1
+    | tail _ hm => exact cleanProps_true ps h.2 p hm
+
+theorem cleanList_true : ∀ (bs : List S), cleanList bs = true → ∀ b ∈ bs, cleanDefaults b = true
+  | [], _, b, hb => by cases hb
+  | s :: bs, h, b, hb => by
+    simp only [cleanList, Bool.and_eq_true] at h
+    cases hb with
+    | head => exact h.1
+    | tail _ hm => exact cleanList_true bs h.2 b hm
+
+theorem cleanDefaults_attr (s : S) (h : cleanDefaults s = true) : attrClean s.attr = true := by
+  cases s <;> simp only [cleanDefaults, Bool.and_eq_true] at h <;> simp [S.attr, h]
+
+/-- "no explicit null member, and not null itself" -/
+def solid (x : J) : Prop := x.isNull = false ∧ hasNullProp x = false
+
+theorem noNull_lookup : ∀ (kvs : List (String × J)) (k : String) (x : J),
+    hasNullPropKvs kvs = false → lookup k kvs = some x → solid x
+  | [], _, _, _, h => by simp [lookup] at h
+  | (k', y) :: r, k, x, hn, h => by
+    simp only [hasNullPropKvs, Bool.or_eq_false_iff] at hn
+    simp only [lookup] at h
+    split at h
+    · cases h; exact ⟨hn.1.1, hn.1.2⟩
+    · exact noNull_lookup r k x hn.2 h
+
+theorem noNull_setKey : ∀ (kvs : List (String × J)) (k : String) (x : J),
+    hasNullPropKvs kvs = false → solid x → hasNullPropKvs (setKey k x kvs) = false
+  | [], k, x, _, hx => by simp [setKey, hasNullPropKvs, hx.1, hx.2]
+  | (k', y) :: r, k, x, hn, hx => by
+    simp only [hasNullPropKvs, Bool.or_eq_false_iff] at hn
+    simp only [setKey]
+    split
+    · simp [hasNullPropKvs, hx.1, hx.2, hn.2]
+    · simp [hasNullPropKvs, hn.1, noNull_setKey r k x hn.2 hx]
+
+theorem dfltFor_spec (c : Ctx) (a : Attr) : dfltFor (specCtx c) a = dfltFor c a := rfl
+
+theorem slotEmpty_spec (c : Ctx) (m : Option J) (h : ∀ x, m = some x → x.isNull = false) :
+    slotEmpty (specCtx c) m = slotEmpty c m := by
+  cases m with
+  | none => rfl
+  | some x =>
+    have := h x rfl
+    cases x <;> simp_all [slotEmpty, J.isNull]
+
+theorem dfltFor_solid (c : Ctx) (a : Attr) (d : J) (ha : attrClean a = true) (h : dfltFor c a = some d) : solid d := by
+  refine ⟨dfltFor_nonNull c a d h, ?_⟩
+  unfold dfltFor at h
+  unfold attrClean at ha
+  cases hd : a.dflt with
+  | none => simp [hd] at h
+  | some d' =>
+    simp only [hd] at h ha
+    split at h
+    · cases h
+    · cases h; simpa using ha
+
+theorem injectStep_spec (c : Ctx) (k : String) (a : Attr) (kvs : List (String × J)) (ha : attrClean a = true)
+    (hn : hasNullPropKvs kvs = false) :
+    injectStep (specCtx c) k a kvs = injectStep c k a kvs ∧ hasNullPropKvs (injectStep c k a kvs) = false := by
+  unfold injectStep
+  rw [slotEmpty_spec c (lookup k kvs) (fun x hx => (noNull_lookup kvs k x hn hx).1), dfltFor_spec]
+  refine ⟨rfl, ?_⟩
+  split
+  · cases hd : dfltFor c a with
+    | none => exact hn
+    | some d => exact noNull_setKey kvs k d hn (dfltFor_solid c a d ha hd)
+  · exact hn
+
+theorem injectDefaults_spec (c : Ctx) : ∀ (ps : List (String × S)) (kvs : List (String × J)),
+    (∀ p ∈ ps, cleanDefaults p.2 = true) → hasNullPropKvs kvs = false →
+    injectDefaults (specCtx c) ps kvs = injectDefaults c ps kvs ∧ hasNullPropKvs (injectDefaults c ps kvs) = false
+  | [], kvs, _, hn => ⟨rfl, hn⟩
+  | (k, s) :: ps, kvs, hc, hn => by
+    simp only [injectDefaults]
+    obtain ⟨e1, e2⟩ := injectStep_spec c k s.attr kvs (cleanDefaults_attr s (hc (k, s) (by simp))) hn
+    rw [e1]
+    exact injectDefaults_spec c ps _ (fun p hp => hc p (by simp [hp])) e2
+
+theorem objPre_spec (c : Ctx) (req props addl) (kvs : List (String × J))
+    (hc : ∀ p ∈ props, cleanDefaults p.2 = true) (hn : hasNullPropKvs kvs = false) :
+    objPre (specCtx c) req props addl kvs = objPre c req props addl kvs ∧
+    ∀ kvs1, objPre c req props addl kvs = some kvs1 → hasNullPropKvs kvs1 = false := by
+  have hd : defaulted (specCtx c) props kvs = defaulted c props kvs ∧ hasNullPropKvs (defaulted c props kvs) = false := by
+    unfold defaulted
+    have : (specCtx c).setDefaults = c.setDefaults := rfl
+    rw [this]
+    cases c.setDefaults with
+    | false => exact ⟨rfl, hn⟩
+    | true => exact injectDefaults_spec c props kvs hc hn
+  constructor
+  · unfold objPre
+    rw [hd.1]
+    rfl
+  · intro kvs1 h
+    rw [(objPre_some c req props addl kvs kvs1 h).1]; exact hd.2
+
+/-- what the induction carries: on values without null members the two readings agree and the result has none -/
+def Agree (c : Ctx) (s : S) : Prop :=
+  ∀ v, hasNullProp v = false →
+    visit (specCtx c) s v = visit c s v ∧ ∀ v', visit c s v = some v' → hasNullProp v' = false
+
+theorem visitProps_spec (c : Ctx) : ∀ (ps : List (String × S)), (∀ p ∈ ps, Agree c p.2) →
+    ∀ kvs, hasNullPropKvs kvs = false →
+      visitProps (specCtx c) ps kvs = visitProps c ps kvs ∧
+      ∀ kvs', visitProps c ps kvs = some kvs' → hasNullPropKvs kvs' = false
+  | [], _, kvs, hn => by simp [visitProps, hn]
+  | (k, s) :: ps, hp, kvs, hn => by
+    have hps : ∀ p ∈ ps, Agree c p.2 := fun p hm => hp p (by simp [hm])
+    simp only [visitProps]
+    cases hl : lookup k kvs with
+    | none => exact visitProps_spec c ps hps kvs hn
+    | some x =>
+      simp only
+      have hx := noNull_lookup kvs k x hn hl
+      obtain ⟨e1, e2⟩ := hp (k, s) (by simp) x hx.2
+      rw [e1]
+      cases hv : visit c s x with
+      | none => simp
+      | some x' =>
+        simp only [Option.bind_some]
+        have hx' : solid x' := ⟨by rw [visit_isNull c s x x' hv]; exact hx.1, e2 x' hv⟩
+        exact visitProps_spec c ps hps _ (noNull_setKey kvs k x' hn hx')
+
+theorem mapOpt_spec (f g : J → Option J) : ∀ (xs : List J), hasNullPropList xs = false →
+    (∀ x, hasNullProp x = false → f x = g x ∧ ∀ y, g x = some y → hasNullProp y = false) →
+    mapOpt f xs = mapOpt g xs ∧ ∀ ys, mapOpt g xs = some ys → hasNullPropList ys = false
+  | [], _, _ => by simp [mapOpt, hasNullPropList]
+  | x :: xs, hn, h => by
+    simp only [hasNullPropList, Bool.or_eq_false_iff] at hn
+    obtain ⟨e1, e2⟩ := h x hn.1
+    obtain ⟨i1, i2⟩ := mapOpt_spec f g xs hn.2 h
+    simp only [mapOpt, e1, i1, true_and]
+    intro ys hy
+    cases hg : g x with
+    | none => simp [hg] at hy
+    | some y =>
+      cases hm : mapOpt g xs with
+      | none => simp [hg, hm] at hy
+      | some ys' =>
+        simp [hg, hm] at hy; subst hy
+        simp [hasNullPropList, e2 y hg, i2 ys' hm]
+
+theorem visitMatches_spec (c : Ctx) (v : J) (hn : hasNullProp v = false) : ∀ (bs : List S), (∀ b ∈ bs, Agree c b) →
+    visitMatches (specCtx c) bs v = visitMatches c bs v ∧ ∀ x ∈ visitMatches c bs v, hasNullProp x = false
+  | [], _ => by simp [visitMatches]
+  | b :: bs, h => by
+    obtain ⟨e1, e2⟩ := h b (by simp) v hn
+    obtain ⟨i1, i2⟩ := visitMatches_spec c v hn bs (fun b' hb => h b' (by simp [hb]))
+    simp only [visitMatches, e1, i1, true_and]
+    intro x hx
+    simp only [List.mem_append] at hx
+    rcases hx with hx | hx
+    · cases hv : visit c b v with
+      | none => simp [hv] at hx
+      | some y => simp [hv] at hx; rw [hx]; exact e2 y hv
+    · exact i2 x hx
+
+theorem visitAll_spec (c : Ctx) : ∀ (bs : List S), (∀ b ∈ bs, Agree c b) → ∀ v, hasNullProp v = false →
+    visitAll (specCtx c) bs v = visitAll c bs v ∧ ∀ v', visitAll c bs v = some v' → hasNullProp v' = false
+  | [], _, v, hn => by simp [visitAll, hn]
+  | b :: bs, h, v, hn => by
+    obtain ⟨e1, e2⟩ := h b (by simp) v hn
+    simp only [visitAll, e1]
+    cases hv : visit c b v with
+    | none => simp
+    | some v1 =>
+      simp only [Option.bind_some]
+      exact visitAll_spec c bs (fun b' hb => h b' (by simp [hb])) v1 (e2 v1 hv)
+
+theorem hasNullProp_of_pick (k : Kind) (ms : List J) (x : J) (h : pick k ms = some x)
+    (hm : ∀ y ∈ ms, hasNullProp y = false) : hasNullProp x = false := hm x (pick_mem k ms x h)
+
+theorem visit_agree (c : Ctx) : ∀ s, cleanDefaults s = true → Agree c s := by
+  intro s
+  induction s using S.induct with
+  | leaf a ty =>
+    intro _ v hn
+    refine ⟨by rw [visit_leaf, visit_leaf], ?_⟩
+    intro v' h; rw [visit_leaf_id c a ty v v' h]; exact hn
+  | obj a req props addl ih =>
+    intro hc v hn
+    simp only [cleanDefaults, Bool.and_eq_true] at hc
+    have hcp := cleanProps_true props hc.2
+    cases v with
+    | obj kvs =>
+      simp only [hasNullProp] at hn
+      obtain ⟨p1, p2⟩ := objPre_spec c req props addl kvs hcp hn
+      rw [visit_obj_obj, visit_obj_obj, p1]
+      cases hpre : objPre c req props addl kvs with
+      | none => simp
+      | some kvs1 =>
+        simp only [Option.bind_some]
+        obtain ⟨q1, q2⟩ := visitProps_spec c props (fun p hp => ih p hp (hcp p hp)) kvs1 (p2 kvs1 hpre)
+        rw [q1]
+        refine ⟨rfl, ?_⟩
+        intro v' h
+        cases hv : visitProps c props kvs1 with
+        | none => simp [hv] at h
+        | some kvs' => simp [hv] at h; subst h; simp only [hasNullProp]; exact q2 kvs' hv
+    | null => refine ⟨by rw [visit_obj_null, visit_obj_null], ?_⟩
+              intro v' h; rw [visit_obj_null] at h; split at h <;> cases h; rfl
+    | bool b => refine ⟨by rw [visit_obj_other _ _ _ _ _ _ rfl (by simp), visit_obj_other _ _ _ _ _ _ rfl (by simp)], ?_⟩
+                intro v' h; rw [visit_obj_other _ _ _ _ _ _ rfl (by simp)] at h; cases h
+    | num n => refine ⟨by rw [visit_obj_other _ _ _ _ _ _ rfl (by simp), visit_obj_other _ _ _ _ _ _ rfl (by simp)], ?_⟩
+               intro v' h; rw [visit_obj_other _ _ _ _ _ _ rfl (by simp)] at h; cases h
+    | str t => refine ⟨by rw [visit_obj_other _ _ _ _ _ _ rfl (by simp), visit_obj_other _ _ _ _ _ _ rfl (by simp)], ?_⟩
+               intro v' h; rw [visit_obj_other _ _ _ _ _ _ rfl (by simp)] at h; cases h
+    | arr xs => refine ⟨by rw [visit_obj_other _ _ _ _ _ _ rfl (by simp), visit_obj_other _ _ _ _ _ _ rfl (by simp)], ?_⟩
+                intro v' h; rw [visit_obj_other _ _ _ _ _ _ rfl (by simp)] at h; cases h
+  | arr a items ih =>
+    intro hc v hn
+    simp only [cleanDefaults, Bool.and_eq_true] at hc
+    cases v with
+    | arr xs =>
+      simp only [hasNullProp] at hn
+      obtain ⟨m1, m2⟩ := mapOpt_spec (fun x => visit (specCtx c) items x) (fun x => visit c items x) xs hn
+        (fun x hx => ih hc.2 x hx)
+      rw [visit_arr_arr, visit_arr_arr, m1]
+      refine ⟨rfl, ?_⟩
+      intro v' h
+      cases hm : mapOpt (fun x => visit c items x) xs with
+      | none => simp [hm] at h
+      | some ys => simp [hm] at h; subst h; simp only [hasNullProp]; exact m2 ys hm
+    | null => refine ⟨by rw [visit_arr_null, visit_arr_null], ?_⟩
+              intro v' h; rw [visit_arr_null] at h; split at h <;> cases h; rfl
+    | bool b => refine ⟨by rw [visit_arr_other _ _ _ _ rfl (by simp), visit_arr_other _ _ _ _ rfl (by simp)], ?_⟩
+                intro v' h; rw [visit_arr_other _ _ _ _ rfl (by simp)] at h; cases h
+    | num n => refine ⟨by rw [visit_arr_other _ _ _ _ rfl (by simp), visit_arr_other _ _ _ _ rfl (by simp)], ?_⟩
+               intro v' h; rw [visit_arr_other _ _ _ _ rfl (by simp)] at h; cases h
+    | str t => refine ⟨by rw [visit_arr_other _ _ _ _ rfl (by simp), visit_arr_other _ _ _ _ rfl (by simp)], ?_⟩
+               intro v' h; rw [visit_arr_other _ _ _ _ rfl (by simp)] at h; cases h
+    | obj kvs => refine ⟨by rw [visit_arr_other _ _ _ _ rfl (by simp), visit_arr_other _ _ _ _ rfl (by simp)], ?_⟩
+                 intro v' h; rw [visit_arr_other _ _ _ _ rfl (by simp)] at h; cases h
+  | comb a k bs ih =>
+    intro hc v hn
+    simp only [cleanDefaults, Bool.and_eq_true] at hc
+    have hb : ∀ b ∈ bs, Agree c b := fun b hm => ih b hm (cleanList_true bs hc.2 b hm)
+    obtain ⟨a1, a2⟩ := visitAll_spec c bs hb v hn
+    obtain ⟨m1, m2⟩ := visitMatches_spec c v hn bs hb
+    rw [visit_comb, visit_comb, a1, m1]
+    refine ⟨rfl, ?_⟩
+    intro v' h
+    rcases combRes_some h with e | ⟨_, _, hall⟩ | ⟨_, _, hp⟩
+    · rw [e]; exact hn
+    · exact a2 v' hall
+    · exact hasNullProp_of_pick k _ v' hp m2
+
 end KinModel.C13.Body
